@@ -4,6 +4,7 @@ package main
 
 import (
 	"fmt"
+	"go/token"
 	"go/types"
 	"strings"
 
@@ -84,6 +85,25 @@ func (ex *Exec) onStack(f *ssa.Function) bool {
 }
 
 func (ex *Exec) callFunc(f *ssa.Function, args, freeVars []Term, cc *ssa.CallCommon, h *Heap, reach Term, at ssa.Value) []Term {
+	rs := ex.callFunc1(f, args, freeVars, cc, h, reach, at)
+	if ex.depth == 0 && ex.contract != nil && len(ex.contract.Witnesses) > 0 {
+		ex.counters["wit."+f.Name()]++
+		for _, w := range ex.contract.Witnesses {
+			if w.Callee == f.Name() && w.N == ex.counters["wit."+f.Name()] {
+				sc := ex.specCtx(ex.paramVars(), h.clone())
+				v := sc.eval(w.Expr.Expr)
+				v.t = ex.q.def("wit_"+w.Name, v.t)
+				if v.typ == nil {
+					v.typ = types.Typ[types.Int]
+				}
+				ex.witness[w.Name] = v
+			}
+		}
+	}
+	return rs
+}
+
+func (ex *Exec) callFunc1(f *ssa.Function, args, freeVars []Term, cc *ssa.CallCommon, h *Heap, reach Term, at ssa.Value) []Term {
 	q := ex.q
 	key := funcKey(f)
 	c := ex.P.contracts.get(key)
@@ -151,10 +171,6 @@ func (ex *Exec) inline(f *ssa.Function, args, freeVars []Term, h *Heap, reach Te
 		}
 		rs[i] = q.def("ret_"+f.Name(), t)
 	}
-	// the call returns normally only if one of the return sites is reached
-	if len(ex2.panicked) > 0 {
-		q.note("%s: inlined %s may panic; continuation assumes it returned", ex.fn.Name(), f.Name())
-	}
 	return rs
 }
 
@@ -162,8 +178,9 @@ func (ex *Exec) inline(f *ssa.Function, args, freeVars []Term, h *Heap, reach Te
 func (ex *Exec) contractCall(f *ssa.Function, c *Contract, args []Term, h *Heap, reach Term, at ssa.Value) []Term {
 	q := ex.q
 	vars := map[string]SV{}
-	for i, p := range f.Params {
-		vars[p.Name()] = SV{args[i], p.Type()}
+	pnames, ptypes := sigParams(f)
+	for i := range pnames {
+		vars[pnames[i]] = SV{args[i], ptypes[i]}
 	}
 	pre := h.clone()
 	cx := &Exec{q: q, P: ex.P, fn: f, vals: map[ssa.Value]Term{}, locs: map[ssa.Value]*Loc{}, params: args, entryHeap: pre, stack: ex.stack, depth: ex.depth, counters: ex.counters}
@@ -188,7 +205,8 @@ func (ex *Exec) contractCall(f *ssa.Function, c *Contract, args []Term, h *Heap,
 		effs = ex.P.contractEffects(q.so, f, c)
 		for i := range effs {
 			if effs[i].param >= 0 {
-				effs[i].base = f.Params[effs[i].param]
+				effs[i].base = paramValue{effs[i].param}
+				cx.vals[effs[i].base] = args[effs[i].param]
 			}
 		}
 	} else if !c.Assumed && len(f.Blocks) > 0 {
@@ -218,6 +236,9 @@ func (ex *Exec) contractCall(f *ssa.Function, c *Contract, args []Term, h *Heap,
 	}
 	if c.Fresh && len(rs) > 0 {
 		q.assume(implies(reach, and(le(q.heapGet(pre, allocKey), rs[0]), lt(rs[0], q.heapGet(h, allocKey)))))
+	}
+	for _, w := range c.Witnesses {
+		vars[w.Name] = SV{q.fresh("wit_"+w.Name, sInt), types.Typ[types.Int]}
 	}
 	sc2 := &SpecCtx{ex: cx, pkg: f.Pkg, vars: vars, heap: h, old: pre}
 	for _, e := range c.Ensures {
@@ -518,3 +539,45 @@ func (ex *Exec) runDefers(x *ssa.RunDefers, h *Heap, reach Term) {
 }
 
 var _ = strings.Contains
+
+// sigParams lists parameter names and types (receiver first) even for functions without bodies.
+func sigParams(f *ssa.Function) ([]string, []types.Type) {
+	var names []string
+	var typs []types.Type
+	if len(f.Params) > 0 {
+		for _, p := range f.Params {
+			names = append(names, p.Name())
+			typs = append(typs, p.Type())
+		}
+		return names, typs
+	}
+	sig := f.Signature
+	if r := sig.Recv(); r != nil {
+		n := r.Name()
+		if n == "" || n == "_" {
+			n = "recv"
+		}
+		names = append(names, n)
+		typs = append(typs, r.Type())
+	}
+	for i := 0; i < sig.Params().Len(); i++ {
+		p := sig.Params().At(i)
+		n := p.Name()
+		if n == "" || n == "_" {
+			n = fmt.Sprintf("arg%d", i)
+		}
+		names = append(names, n)
+		typs = append(typs, p.Type())
+	}
+	return names, typs
+}
+
+// paramValue is a placeholder ssa.Value standing for the i-th parameter of a body-less function.
+type paramValue struct{ i int }
+
+func (paramValue) Name() string                  { return "param" }
+func (paramValue) String() string                { return "param" }
+func (paramValue) Type() types.Type              { return types.Typ[types.Int] }
+func (paramValue) Parent() *ssa.Function         { return nil }
+func (paramValue) Referrers() *[]ssa.Instruction { return nil }
+func (paramValue) Pos() token.Pos                { return token.NoPos }
